@@ -63,6 +63,7 @@ class Gen:
         self.gather_labels = []   # labelled level-1 gathers: (full name, body of what follows the gather)
         self.label_bodies = {}
         self.kparams = {}         # knot / tunnel / thread name -> parameter names
+        self.consts = {}          # CONST name -> integer value
         self.dvars = {}           # global that holds a divert target -> the knots it may hold (all of one kind)
 
     # ------------------------------------------------------------------ helpers
@@ -135,6 +136,9 @@ class Gen:
             return {"k": "b", "op": op, "a": a, "b": b}, "(%s %s %s)" % (ta, op, tb)
         k = r.random()
         if depth >= 2 or k < 0.3:
+            if self.consts and self.p(0.25):
+                c = r.choice(sorted(self.consts))        # a named constant is its value
+                return {"k": "lit", "v": I(self.consts[c])}, c
             n = r.randint(0, 4)
             return {"k": "lit", "v": I(n)}, str(n)
         if k < 0.55 and self.int_vars():
@@ -334,6 +338,15 @@ class Gen:
         x = r.choice(ints + list(self.temps)) if ints else None
         if x is None:
             return [], []
+        if self.has("sugar") and self.p(0.35):
+            # the short forms of an assignment: x++, x--, x += e, x -= e
+            var = {"k": "var", "n": x}
+            form = r.choice(["++", "--", "+=", "-="])
+            if form in ("++", "--"):
+                return [{"k": "set", "x": x, "e": {"k": "b", "op": form[0], "a": var, "b": {"k": "lit", "v": I(1)}}}], ["%s~ %s%s" % (ind, x, form)]
+            e, t = self.expr(1)
+            return [{"k": "set", "x": x, "e": {"k": "b", "op": form[0], "a": var, "b": e}}] + [NL] * has_call(e), \
+                   ["%s~ %s %s %s" % (ind, x, form, t)]
         self.div_ok = True
         e, t = self.expr()
         self.div_ok = False
@@ -824,7 +837,10 @@ class Gen:
             if tunnels and self.p(0.5):
                 self.dvars["w0"] = list(tunnels)
                 self.globals.append({"n": "w0", "v": {"t": "div", "v": r.choice(tunnels)}})
-        src = ["VAR %s = %s" % (g["n"], lit(g["v"])) for g in self.globals]
+        if self.has("sugar"):
+            for i in range(r.randint(0, 2)):
+                self.consts["cn%d" % i] = r.randint(0, 4)
+        src = ["CONST %s = %d" % kv for kv in sorted(self.consts.items())] + ["VAR %s = %s" % (g["n"], lit(g["v"])) for g in self.globals]
         self.cur = ""
         root = self.body([{"k": "div", "t": "k0"}])
         src.append("-> k0")
